@@ -1,17 +1,53 @@
-//! C18 - not built yet.
-use crate::engine::{PropertyInfo, RunCtx};
+//! C18 - the control endpoint executes a request only with a sufficient role.
+//!
+//! Fixture: the real `ControlServer` on a unix socket in front of a constructed
+//! `ControlState` (runtime built by `TestHarness`, `ResourceControl::stub` whose receiver
+//! records every command, `PairingStore` on an injected clock with tokens of every role plus
+//! one that runs out and one that is revoked, scratch project directory).
+//! Domain: request types = every string literal in `match` position of
+//! `control/handlers/*.rs`, `required_role_for_control_request` and `is_debug_request`, read
+//! from the sources under `engine::repo_root()` at run time, plus garbled/unknown types;
+//! parameters from a per-type schema (valid, missing, wrong-typed, huge, nested);
+//! credentials; endpoint configurations; malformed lines. The (type x credential x config)
+//! grid is enumerated first, then requests are generated.
+//! Oracle: a state probe before and after every request and the assertions (1)-(6) of
+//! DESIGN section 4 C18.
+
+use std::cell::RefCell;
+use std::collections::{BTreeMap, BTreeSet};
+use std::sync::Mutex;
+
+use proptest::prelude::*;
+use serde_json::{json, Value as J};
+
+use crate::engine::tape::{tape_strategy, Reader};
+use crate::engine::{Probe, PropertyInfo, RunCtx};
+
+#[path = "c18/domain.rs"]
+mod domain;
+#[path = "c18/fixture.rs"]
+mod fixture;
+
+use domain::{Cred, Extracted, GroupCase, Level, LineCase};
+use fixture::{Cfg, Fixture, ProbeState, Reply, Template, ADMIN_TOKEN, CANARIES};
 
 pub fn info() -> PropertyInfo {
     PropertyInfo {
         id: "C18",
         level: "exploration",
-        rule: "not built yet",
-        assumptions: &[],
-        workers_quick: 1,
-        workers_thorough: 1,
+        rule: "case = one request template (type, params, config) swept over all credentials through the real unix-socket ControlServer, or one malformed line; non-trivial = template of a request type known to the dispatcher (sent with every credential below admin) or a malformed line; distinct by (type, params, config) / line bytes",
+        assumptions: &[
+            "refusals are recognised by the endpoint's reply wording: 'unauthorized', 'forbidden: requires role <r>', 'debug disabled', 'invalid request: ...'",
+            "without a configured auth token the endpoint trusts its local socket: the property makes no statement about credentials that are not live pairing tokens in that configuration",
+            "volatile bookkeeping is not a state change: HMI trend/alarm cache refresh by hmi.*.get, debugger variable handles (debug.scopes), drained stop-event queue (debug.stops), pruning of run-out pairing tokens",
+            "debugger-private state (mode, steps, queued writes, forced values) and the resource stop flag are read from the derived Debug rendering of DebugControl/ResourceControl",
+            "unix-socket transport only (TCP shares handle_request_line); one connection per fixture",
+        ],
+        workers_quick: 8,
+        workers_thorough: 16,
         address_space_limit: 0,
-        watchdog_quick_s: 600,
-        watchdog_thorough_s: 3600,
+        watchdog_quick_s: 900,
+        watchdog_thorough_s: 14_400,
         run,
     }
 }
@@ -21,6 +57,1194 @@ pub fn helper(_args: &[String]) -> Option<i32> {
     None
 }
 
+// ---------------------------------------------------------------------------------------
+
+static PANICS: Mutex<Vec<String>> = Mutex::new(Vec::new());
+
+/// Keep the engine's hook, additionally remember panics of server threads (they die
+/// silently otherwise and show up only as a closed connection).
+fn install_panic_recorder() {
+    let prev = std::panic::take_hook();
+    std::panic::set_hook(Box::new(move |info| {
+        let name = std::thread::current().name().unwrap_or("").to_string();
+        let loc = info
+            .location()
+            .map(|l| format!("{}:{}", l.file(), l.line()))
+            .unwrap_or_default();
+        let msg = if let Some(s) = info.payload().downcast_ref::<&str>() {
+            (*s).to_string()
+        } else if let Some(s) = info.payload().downcast_ref::<String>() {
+            s.clone()
+        } else {
+            "<non-string panic>".to_string()
+        };
+        if let Ok(mut g) = PANICS.lock() {
+            if g.len() < 32 {
+                g.push(format!("thread '{name}' panicked at {loc}: {msg}"));
+            }
+        }
+        prev(info);
+    }));
+}
+
+fn take_panics() -> Vec<String> {
+    PANICS.lock().map(|mut g| std::mem::take(&mut *g)).unwrap_or_default()
+}
+
+struct Env {
+    tpl: Template,
+    ex: Extracted,
+    debug_class: BTreeSet<String>,
+    pool: RefCell<BTreeMap<String, Fixture>>,
+    seq: RefCell<u64>,
+    infra: RefCell<Vec<String>>,
+    notes: RefCell<BTreeSet<String>>,
+    next_id: RefCell<u64>,
+    rebuilds: RefCell<u64>,
+    graveyard: RefCell<Vec<std::thread::JoinHandle<()>>>,
+}
+
+impl Env {
+    fn infra(&self, s: String) {
+        let mut v = self.infra.borrow_mut();
+        if v.len() < 20 {
+            v.push(s);
+        }
+    }
+
+    fn retire(&self, fx: Fixture) {
+        let (handle, problem) = fx.teardown();
+        if let Some(e) = problem {
+            self.notes.borrow_mut().insert(format!("teardown: {e}"));
+        }
+        let mut g = self.graveyard.borrow_mut();
+        if let Some(h) = handle {
+            g.push(h);
+        }
+        // join whatever has ended in the meantime
+        let mut i = 0;
+        while i < g.len() {
+            if g[i].is_finished() {
+                let _ = g.swap_remove(i).join();
+            } else {
+                i += 1;
+            }
+        }
+        if g.len() > 64 {
+            // server threads are not going away: stop and wait rather than pile them up
+            let h = g.remove(0);
+            let t0 = std::time::Instant::now();
+            while !h.is_finished() && t0.elapsed().as_secs() < 5 {
+                std::thread::sleep(std::time::Duration::from_millis(1));
+            }
+            if h.is_finished() {
+                let _ = h.join();
+            } else {
+                self.notes
+                    .borrow_mut()
+                    .insert("teardown: server threads of a retired fixture did not exit within 5 s".into());
+            }
+        }
+    }
+
+    /// Fixture for `cfg`, fresh if the pooled one was used up.
+    fn take(&self, cfg: Cfg, need_fresh: bool) -> Result<Fixture, String> {
+        let key = cfg.key();
+        if let Some(fx) = self.pool.borrow_mut().remove(&key) {
+            if !need_fresh {
+                return Ok(fx);
+            }
+            self.retire(fx);
+        }
+        let seq = {
+            let mut s = self.seq.borrow_mut();
+            *s += 1;
+            *s
+        };
+        *self.rebuilds.borrow_mut() += 1;
+        let fx = Fixture::new(cfg, &self.tpl, seq)?;
+        if !fx.debug_layout_ok {
+            let e = "DebugControl/ResourceControl Debug rendering no longer has the expected fields; probe cannot see debugger state".to_string();
+            self.retire(fx);
+            return Err(e);
+        }
+        if !fx.has_debug_snapshot {
+            self.notes
+                .borrow_mut()
+                .insert("fixture: DebugControl holds no snapshot after the set-up cycle".into());
+        }
+        if fx.alarm_id.is_empty() {
+            self.notes
+                .borrow_mut()
+                .insert("fixture: no HMI alarm raised at set-up (hmi.alarm.ack has no visible effect)".into());
+        }
+        Ok(fx)
+    }
+
+    fn put_back(&self, fx: Fixture, dirty: bool) {
+        if dirty {
+            self.retire(fx);
+        } else {
+            self.pool.borrow_mut().insert(fx.cfg.key(), fx);
+        }
+    }
+
+    fn shutdown(&self) {
+        let all: Vec<Fixture> = std::mem::take(&mut *self.pool.borrow_mut()).into_values().collect();
+        for fx in all {
+            self.retire(fx);
+        }
+        let t0 = std::time::Instant::now();
+        let mut g = self.graveyard.borrow_mut();
+        while !g.is_empty() && t0.elapsed().as_secs() < 10 {
+            let mut i = 0;
+            while i < g.len() {
+                if g[i].is_finished() {
+                    let _ = g.swap_remove(i).join();
+                } else {
+                    i += 1;
+                }
+            }
+            std::thread::sleep(std::time::Duration::from_millis(1));
+        }
+        if !g.is_empty() {
+            self.notes
+                .borrow_mut()
+                .insert(format!("teardown: {} fixture thread groups still alive at the end of the run", g.len()));
+        }
+        let _ = std::fs::remove_dir_all(&self.tpl.base);
+    }
+
+    fn fresh_id(&self) -> u64 {
+        let mut n = self.next_id.borrow_mut();
+        *n += 1;
+        *n
+    }
+
+    fn is_debug_class(&self, ty: &str) -> bool {
+        self.debug_class.contains(ty)
+    }
+
+    fn known_to_dispatcher(&self, ty: &str) -> bool {
+        self.ex.dispatch.contains_key(ty)
+    }
+}
+
+fn cut(s: &str, n: usize) -> String {
+    if s.len() <= n {
+        return s.to_string();
+    }
+    let mut end = n;
+    while !s.is_char_boundary(end) {
+        end -= 1;
+    }
+    format!("{}...[{} bytes]", &s[..end], s.len())
+}
+
+fn fill(v: &J, fx: &Fixture, tpl: &Template) -> J {
+    match v {
+        J::String(s) => match s.as_str() {
+            "$CODE" => json!(fx.pending_code),
+            "$ALARM" => json!(fx.alarm_id),
+            "$FILEID" => json!(fx.file_id),
+            "$BPLINE" => json!(fx.bp_line_free),
+            "$PAIRID" => json!(tpl.tokens.id_engineer),
+            "$OTHERMODE" => json!(if fx.cfg.mode_debug { "production" } else { "debug" }),
+            "$OTHERDEBUG" => json!(!fx.cfg.debug_enabled),
+            _ => v.clone(),
+        },
+        J::Array(a) => J::Array(a.iter().map(|x| fill(x, fx, tpl)).collect()),
+        J::Object(m) => J::Object(m.iter().map(|(k, x)| (k.clone(), fill(x, fx, tpl))).collect()),
+        _ => v.clone(),
+    }
+}
+
+fn auth_member(cred: Cred, tpl: &Template) -> Option<J> {
+    let t = &tpl.tokens;
+    Some(match cred {
+        Cred::None => return None,
+        Cred::Wrong => json!("not-a-token-5c1d"),
+        Cred::Empty => json!(""),
+        Cred::Admin => json!(ADMIN_TOKEN),
+        Cred::Viewer => json!(t.viewer),
+        Cred::Operator => json!(t.operator),
+        Cred::Engineer => json!(t.engineer),
+        Cred::Expired => json!(t.expired),
+        Cred::Revoked => json!(t.revoked),
+        Cred::AdminPadded => json!(format!(" {ADMIN_TOKEN} ")),
+        Cred::AdminUpper => json!(ADMIN_TOKEN.to_ascii_uppercase()),
+        Cred::AdminPrefix => json!(&ADMIN_TOKEN[..ADMIN_TOKEN.len() - 1]),
+        Cred::EngineerPadded => json!(format!("{} ", t.engineer)),
+        Cred::AuthNull => J::Null,
+        Cred::AuthNumber => json!(7),
+        Cred::AuthArrayOfAdmin => json!([ADMIN_TOKEN]),
+    })
+}
+
+#[derive(Clone, Debug, PartialEq, Eq)]
+enum Class {
+    Unauthorized,
+    Forbidden(Option<Level>),
+    DebugDisabled,
+    Invalid,
+    Unsupported,
+    HandlerError,
+    Ok,
+}
+
+impl Class {
+    fn name(&self) -> &'static str {
+        match self {
+            Class::Unauthorized => "unauthorized",
+            Class::Forbidden(_) => "forbidden",
+            Class::DebugDisabled => "debug_disabled",
+            Class::Invalid => "invalid_request",
+            Class::Unsupported => "unsupported",
+            Class::HandlerError => "handler_error",
+            Class::Ok => "ok",
+        }
+    }
+    /// the request got past authentication and the role check
+    fn passed_role_gate(&self) -> bool {
+        matches!(
+            self,
+            Class::DebugDisabled | Class::Unsupported | Class::HandlerError | Class::Ok
+        )
+    }
+}
+
+struct Parsed {
+    ok: bool,
+    has_result: bool,
+    error: String,
+    id: Option<u64>,
+    class: Class,
+}
+
+fn parse_reply(raw: &str) -> Result<Parsed, String> {
+    let v: J = serde_json::from_str(raw).map_err(|e| format!("reply is not JSON ({e})"))?;
+    let obj = v.as_object().ok_or("reply is not a JSON object")?;
+    let ok = obj
+        .get("ok")
+        .and_then(J::as_bool)
+        .ok_or("reply has no boolean 'ok'")?;
+    let has_result = obj.get("result").map(|r| !r.is_null()).unwrap_or(false);
+    let error = obj.get("error").and_then(J::as_str).unwrap_or("").to_string();
+    let id = obj.get("id").and_then(J::as_u64);
+    let class = if ok {
+        Class::Ok
+    } else if error == "unauthorized" {
+        Class::Unauthorized
+    } else if let Some(rest) = error.strip_prefix("forbidden") {
+        Class::Forbidden(rest.rsplit("requires role ").next().and_then(Level::parse))
+    } else if error == "debug disabled" {
+        Class::DebugDisabled
+    } else if error.starts_with("invalid request") {
+        Class::Invalid
+    } else if error == "unsupported request" {
+        Class::Unsupported
+    } else {
+        Class::HandlerError
+    };
+    Ok(Parsed {
+        ok,
+        has_result,
+        error,
+        id,
+        class,
+    })
+}
+
+struct Outcome {
+    cred: Cred,
+    level: Option<Level>,
+    class: Class,
+    ok: bool,
+    changed: Vec<&'static str>,
+}
+
+fn leak_check(line: &str, reply: &str, tpl: &Template) -> Option<String> {
+    let t = &tpl.tokens;
+    let secrets = [
+        ADMIN_TOKEN,
+        t.viewer.as_str(),
+        t.operator.as_str(),
+        t.engineer.as_str(),
+        t.expired.as_str(),
+        t.revoked.as_str(),
+    ];
+    for c in CANARIES.iter().copied().chain(secrets.iter().copied()) {
+        if reply.contains(c) && !line.contains(c) {
+            return Some(c.to_string());
+        }
+    }
+    None
+}
+
+/// One request through the socket with the probe around it.
+fn one_request(
+    env: &Env,
+    fx: &mut Fixture,
+    line: &[u8],
+) -> Result<(ProbeState, Reply, ProbeState), String> {
+    let before = fx.probe();
+    fx.set_request_clock();
+    let reply = fx.exchange(line);
+    if let Reply::Timeout = reply {
+        env.infra("no reply within 20 s on an open connection".into());
+    }
+    let after = fx.probe();
+    Ok((before, reply, after))
+}
+
+fn describe(case: &GroupCase, cred: Cred) -> String {
+    format!(
+        "[{}] type {:?} params {} extra {} credential {:?}",
+        case.cfg.key(),
+        case.ty,
+        cut(&case.params.as_ref().map(|p| p.to_string()).unwrap_or_else(|| "-".into()), 300),
+        case.extra.as_ref().map(|p| p.to_string()).unwrap_or_else(|| "-".into()),
+        cred
+    )
+}
+
+fn check_group(env: &Env, case: &GroupCase, probe: &mut Probe) -> Result<(), String> {
+    let cfg = case.cfg;
+    let ty = case.ty.as_str();
+    let known = env.known_to_dispatcher(ty);
+    let in_sources = known || env.ex.required_table.contains(ty) || env.ex.debug_gate.contains(ty);
+    let type_class = if known {
+        "dispatcher"
+    } else if in_sources {
+        "table_only"
+    } else if case.ty == case.schema_of {
+        "unclassified"
+    } else if domain::UNKNOWN_TYPES.contains(&ty) {
+        "unknown"
+    } else {
+        "garbled"
+    };
+    probe.label(format!("type={type_class}"));
+    probe.label(format!("shape={}", case.shape));
+    probe.label(format!("cfg={}", cfg.key()));
+    let mutating = domain::is_mutating(ty);
+    let debug_class = env.is_debug_class(ty);
+
+    let mut outcomes: Vec<Outcome> = Vec::new();
+    let mut fx = match env.take(cfg, false) {
+        Ok(fx) => fx,
+        Err(e) => {
+            env.infra(format!("fixture: {e}"));
+            return Ok(());
+        }
+    };
+    for &cred in &case.creds {
+        // the run-out token is pruned by the first request that consults the pairing
+        // store; give that credential a store that still holds it
+        if cred == Cred::Expired && fx.expiry_consumed {
+            env.put_back(fx, true);
+            fx = match env.take(cfg, true) {
+                Ok(fx) => fx,
+                Err(e) => {
+                    env.infra(format!("fixture: {e}"));
+                    return Ok(());
+                }
+            };
+        }
+        let id = env.fresh_id();
+        let mut obj = serde_json::Map::new();
+        if let Some(J::Object(extra)) = &case.extra {
+            for (k, v) in extra {
+                obj.insert(k.clone(), v.clone());
+            }
+        }
+        obj.insert("id".into(), json!(id));
+        obj.insert("type".into(), json!(case.ty));
+        if let Some(p) = &case.params {
+            obj.insert("params".into(), fill(p, &fx, &env.tpl));
+        }
+        if let Some(a) = auth_member(cred, &env.tpl) {
+            obj.insert("auth".into(), a);
+        }
+        let line = serde_json::to_string(&J::Object(obj)).unwrap();
+        let malformed_auth = matches!(cred, Cred::AuthNumber | Cred::AuthArrayOfAdmin);
+        let lvl = domain::level(cred, cfg.token_set);
+        let what = describe(case, cred);
+
+        let _ = take_panics();
+        let (before, reply, after) = one_request(env, &mut fx, line.as_bytes())?;
+        if domain::touches_pairing_store(cred, cfg.token_set) {
+            fx.expiry_consumed = true;
+        }
+        let changed = before.diff(&after);
+        let raw = match reply {
+            Reply::Line(l) => l,
+            Reply::Closed => {
+                let panics = take_panics();
+                env.put_back(fx, true);
+                return Err(format!(
+                    "(6) no reply: the server closed the connection. {what}\n  server panics: {panics:?}"
+                ));
+            }
+            Reply::Timeout => {
+                env.put_back(fx, true);
+                return Ok(());
+            }
+        };
+        let fail = |fx: Fixture, msg: String| -> Result<(), String> {
+            env.put_back(fx, true);
+            Err(format!("{msg}\n  {what}\n  reply: {}\n  changed: {changed:?}", cut(&raw, 400)))
+        };
+        let parsed = match parse_reply(&raw) {
+            Ok(p) => p,
+            Err(e) => return fail(fx, format!("(6) {e}")),
+        };
+        let class = parsed.class.clone();
+        if !parsed.ok && parsed.has_result {
+            return fail(fx, "an error reply carries a result".into());
+        }
+        if malformed_auth {
+            if parsed.ok {
+                return fail(fx, "(6) a request whose auth member is not a string was served".into());
+            }
+        } else if parsed.id != Some(id) {
+            return fail(
+                fx,
+                format!("(6) reply id {:?} does not answer request id {id}: replies out of step", parsed.id),
+            );
+        }
+        // (1) token configured, no valid credential: error, nothing changes, nothing revealed
+        if lvl == Some(Level::Unauth) {
+            if parsed.ok || parsed.has_result {
+                return fail(fx, "(1) request without a valid credential was served although an auth token is configured".into());
+            }
+            if !changed.is_empty() {
+                return fail(fx, "(1) request without a valid credential changed the endpoint's state".into());
+            }
+            if let Some(c) = leak_check(&line, &raw, &env.tpl) {
+                return fail(fx, format!("(1) reply to a request without a valid credential reveals runtime data ({c:?})"));
+            }
+        }
+        // dynamic rule: nothing at or below viewer changes state
+        if matches!(lvl, Some(Level::Unauth) | Some(Level::Viewer)) && !changed.is_empty() {
+            return fail(fx, format!("(2) a request sent with {} changed the endpoint's state", if lvl == Some(Level::Viewer) { "the viewer role" } else { "no valid credential" }));
+        }
+        // a pairing code handed out is a change of pairing data the probe cannot see
+        if matches!(lvl, Some(Level::Unauth) | Some(Level::Viewer)) && parsed.ok {
+            let issued = serde_json::from_str::<J>(&raw)
+                .ok()
+                .map(|v| v["result"]["code"].is_string() && !v["result"]["expires_at"].is_null())
+                .unwrap_or(false);
+            if issued {
+                return fail(fx, "(2) a pairing code was issued to a request at or below the viewer role".into());
+            }
+        }
+        // (2) mutating request types need more than viewer
+        if mutating && lvl == Some(Level::Viewer) {
+            match &class {
+                Class::Forbidden(Some(x)) if *x > Level::Viewer => {}
+                Class::Forbidden(None) | Class::Unauthorized => {}
+                Class::DebugDisabled if !cfg.debug_enabled && debug_class => {}
+                _ => {
+                    return fail(fx, format!("(2) mutating request type {ty:?} is not refused for the viewer role (outcome {})", class.name()));
+                }
+            }
+        }
+        // (5) debug-class requests while debugging is disabled
+        if !cfg.debug_enabled {
+            if debug_class
+                && !matches!(
+                    class,
+                    Class::Unauthorized | Class::Forbidden(_) | Class::DebugDisabled | Class::Invalid
+                )
+            {
+                return fail(fx, format!("(5) debug-class request {ty:?} is not refused while debugging is disabled (outcome {})", class.name()));
+            }
+            if changed.iter().any(|p| *p == "debug_exec" || *p == "breakpoints") {
+                return fail(fx, "(5) debugger execution state/breakpoints changed while debugging is disabled".into());
+            }
+        }
+        // refusals carry no data
+        if matches!(class, Class::Unauthorized | Class::Forbidden(_) | Class::DebugDisabled)
+            && lvl.is_some()
+        {
+            if let Some(c) = leak_check(&line, &raw, &env.tpl) {
+                return fail(fx, format!("a refusal reveals runtime data ({c:?})"));
+            }
+        }
+        if let Some(extra) = fx.stray_line() {
+            return fail(fx, format!("(6) more than one reply line for one request: {}", cut(&extra, 200)));
+        }
+        probe.label(format!(
+            "outcome={}{}/{}",
+            class.name(),
+            if changed.is_empty() { "" } else { "+changed" },
+            match lvl {
+                Some(l) => format!("{l:?}").to_ascii_lowercase(),
+                None => "local_trust".into(),
+            }
+        ));
+        if !changed.is_empty() && in_sources {
+            probe.label(format!("effect={ty}:{}", changed.join("+")));
+        }
+        let dirty = !changed.is_empty() || (parsed.ok && !domain::is_read_only(ty));
+        let _ = &parsed.error;
+        outcomes.push(Outcome {
+            cred,
+            level: lvl,
+            class,
+            ok: parsed.ok,
+            changed,
+        });
+        if dirty {
+            env.put_back(fx, true);
+            fx = match env.take(cfg, true) {
+                Ok(fx) => fx,
+                Err(e) => {
+                    env.infra(format!("fixture: {e}"));
+                    return Ok(());
+                }
+            };
+        }
+    }
+    // (6) the connection is still usable and in step
+    {
+        let id = env.fresh_id();
+        let ping = json!({"id": id, "type": "health", "auth": ADMIN_TOKEN}).to_string();
+        match fx.exchange(ping.as_bytes()) {
+            Reply::Line(l) => {
+                let ok = parse_reply(&l).map(|p| p.id == Some(id) && p.ok).unwrap_or(false);
+                if !ok {
+                    env.put_back(fx, true);
+                    return Err(format!(
+                        "(6) connection out of step after the sweep of {:?} [{}]: follow-up health request answered by {}",
+                        case.ty,
+                        cfg.key(),
+                        cut(&l, 200)
+                    ));
+                }
+            }
+            Reply::Closed => {
+                env.put_back(fx, true);
+                return Err(format!(
+                    "(6) connection unusable after the sweep of {:?} [{}]",
+                    case.ty,
+                    cfg.key()
+                ));
+            }
+            Reply::Timeout => {
+                env.infra("follow-up health request timed out".into());
+                env.put_back(fx, true);
+                return Ok(());
+            }
+        }
+        env.put_back(fx, false);
+    }
+
+    // cross-credential assertions (3), (4)
+    let graded: Vec<&Outcome> = outcomes.iter().filter(|o| o.level.is_some()).collect();
+    let summary = || -> String {
+        outcomes
+            .iter()
+            .map(|o| {
+                format!(
+                    "{:?}->{}{}",
+                    o.cred,
+                    o.class.name(),
+                    if o.changed.is_empty() { String::new() } else { format!("{:?}", o.changed) }
+                )
+            })
+            .collect::<Vec<_>>()
+            .join(", ")
+    };
+    let ctx_text = || -> String {
+        format!(
+            "[{}] type {:?} params {}\n  outcomes: {}",
+            cfg.key(),
+            case.ty,
+            cut(&case.params.as_ref().map(|p| p.to_string()).unwrap_or_else(|| "-".into()), 300),
+            summary()
+        )
+    };
+    let mut named: Option<Level> = None;
+    for o in &graded {
+        if let Class::Forbidden(Some(x)) = o.class {
+            match named {
+                None => named = Some(x),
+                Some(y) if y != x => {
+                    return Err(format!(
+                        "(4) refusals of one request name different required roles ({y:?} and {x:?})\n  {}",
+                        ctx_text()
+                    ));
+                }
+                _ => {}
+            }
+        }
+    }
+    for a in &graded {
+        let la = a.level.unwrap();
+        if let Some(x) = named {
+            if matches!(a.class, Class::Forbidden(_)) && la >= x {
+                return Err(format!(
+                    "(4) {:?} has role {la:?} >= the named requirement {x:?} but is refused as forbidden\n  {}",
+                    a.cred,
+                    ctx_text()
+                ));
+            }
+            if la != Level::Unauth && la < x && (a.class.passed_role_gate() || !a.changed.is_empty()) {
+                return Err(format!(
+                    "(4) {:?} (role {la:?}) was served although refusals name {x:?} as the required role\n  {}",
+                    a.cred,
+                    ctx_text()
+                ));
+            }
+        }
+        for b in &graded {
+            let lb = b.level.unwrap();
+            if lb < la {
+                continue;
+            }
+            // (3) monotone in the role
+            if a.class.passed_role_gate() && !b.class.passed_role_gate() && b.class != Class::Invalid {
+                return Err(format!(
+                    "(3) {:?} (standing {la:?}) gets past authentication and role check but {:?} (standing {lb:?}, not lower) is refused\n  {}",
+                    a.cred,
+                    b.cred,
+                    ctx_text()
+                ));
+            }
+            if a.ok && !b.ok && b.class != Class::Invalid {
+                return Err(format!(
+                    "(3) {:?} (role {la:?}) is served but {:?} (role {lb:?}) is not\n  {}",
+                    a.cred,
+                    b.cred,
+                    ctx_text()
+                ));
+            }
+            if !a.changed.is_empty() && b.changed.is_empty() && b.class != Class::Invalid {
+                return Err(format!(
+                    "(3) the request takes effect for {:?} (role {la:?}) but not for {:?} (role {lb:?})\n  {}",
+                    a.cred,
+                    b.cred,
+                    ctx_text()
+                ));
+            }
+        }
+    }
+    if mutating {
+        if let Some(x) = named {
+            if x <= Level::Viewer {
+                return Err(format!("(2) mutating request type names {x:?} as required role\n  {}", ctx_text()));
+            }
+        }
+    }
+    if known {
+        let mut key = format!("{}|{}|", case.ty, cfg.key()).into_bytes();
+        key.extend_from_slice(case.params.as_ref().map(|p| p.to_string()).unwrap_or_default().as_bytes());
+        probe.nontrivial(&key);
+        probe.sample(json!({
+            "config": cfg.key(), "type": case.ty, "shape": case.shape,
+            "params": cut(&case.params.as_ref().map(|p| p.to_string()).unwrap_or_default(), 160),
+            "outcomes": summary(),
+        }));
+    }
+    Ok(())
+}
+
+/// Independent reading of a request line: is it a request at all?
+fn is_wellformed_request(bytes: &[u8]) -> bool {
+    let Ok(text) = std::str::from_utf8(bytes) else {
+        return false;
+    };
+    let Ok(v) = serde_json::from_str::<J>(text) else {
+        return false;
+    };
+    let Some(o) = v.as_object() else {
+        return false;
+    };
+    o.get("id").map(|i| i.is_u64()).unwrap_or(false)
+        && o.get("type").map(|t| t.is_string()).unwrap_or(false)
+        && o.get("auth").map(|a| a.is_string() || a.is_null()).unwrap_or(true)
+}
+
+fn check_line(env: &Env, case: &LineCase, probe: &mut Probe) -> Result<(), String> {
+    if case.bytes.contains(&b'\n') {
+        probe.label("line=contains_newline_skipped");
+        return Ok(());
+    }
+    probe.label(format!("line={}", case.class));
+    let wellformed = is_wellformed_request(&case.bytes);
+    if wellformed {
+        probe.label("line=accidentally_wellformed");
+    }
+    let mut fx = match env.take(case.cfg, false) {
+        Ok(fx) => fx,
+        Err(e) => {
+            env.infra(format!("fixture: {e}"));
+            return Ok(());
+        }
+    };
+    let shown = cut(&String::from_utf8_lossy(&case.bytes), 300);
+    let _ = take_panics();
+    let (before, reply, after) = one_request(env, &mut fx, &case.bytes)?;
+    let changed = before.diff(&after);
+    let raw = match reply {
+        Reply::Line(l) => l,
+        Reply::Closed => {
+            let panics = take_panics();
+            env.put_back(fx, true);
+            return Err(format!(
+                "(6) malformed line gets no reply: the server closed the connection [{}] class {} line {shown:?}\n  server panics: {panics:?}",
+                case.cfg.key(),
+                case.class
+            ));
+        }
+        Reply::Timeout => {
+            env.put_back(fx, true);
+            return Ok(());
+        }
+    };
+    let fail = |fx: Fixture, msg: String| -> Result<(), String> {
+        env.put_back(fx, true);
+        Err(format!(
+            "{msg} [{}] class {} line {shown:?}\n  reply: {}\n  changed: {changed:?}",
+            case.cfg.key(),
+            case.class,
+            cut(&raw, 300)
+        ))
+    };
+    let parsed = match parse_reply(&raw) {
+        Ok(p) => p,
+        Err(e) => return fail(fx, format!("(6) {e}")),
+    };
+    if !wellformed {
+        if parsed.ok || parsed.has_result {
+            return fail(fx, "(6) malformed line was served instead of answered with an error".into());
+        }
+        if !changed.is_empty() {
+            return fail(fx, "(6) malformed line changed the endpoint's state".into());
+        }
+    } else if case.cfg.token_set && !String::from_utf8_lossy(&case.bytes).contains(ADMIN_TOKEN) {
+        if parsed.ok || !changed.is_empty() {
+            return fail(fx, "(1) line without credential was served although an auth token is configured".into());
+        }
+    }
+    if let Some(extra) = fx.stray_line() {
+        return fail(fx, format!("(6) more than one reply line: {}", cut(&extra, 200)));
+    }
+    // the connection stays usable
+    let id = env.fresh_id();
+    let ping = json!({"id": id, "type": "health", "auth": ADMIN_TOKEN}).to_string();
+    match fx.exchange(ping.as_bytes()) {
+        Reply::Line(l) => {
+            if !parse_reply(&l).map(|p| p.id == Some(id) && p.ok).unwrap_or(false) {
+                return fail(fx, format!("(6) connection out of step after the malformed line: follow-up answered by {}", cut(&l, 200)));
+            }
+        }
+        Reply::Closed => {
+            return fail(fx, "(6) connection unusable after the malformed line".into());
+        }
+        Reply::Timeout => {
+            env.infra("follow-up health request timed out".into());
+            env.put_back(fx, true);
+            return Ok(());
+        }
+    }
+    let dirty = !changed.is_empty() || parsed.ok;
+    env.put_back(fx, dirty);
+    if !wellformed {
+        let mut key = case.cfg.key().into_bytes();
+        key.extend_from_slice(&case.bytes);
+        probe.nontrivial(&key);
+        if case.bytes.len() < 200 {
+            probe.sample(json!({"config": case.cfg.key(), "class": case.class, "line": shown, "reply": cut(&raw, 120)}));
+        }
+    }
+    Ok(())
+}
+
+/// A short history on one connection: an administrative request changes who is
+/// authorised, the following requests must be judged against the new state.
+#[derive(Clone, Debug, serde::Serialize, serde::Deserialize)]
+struct HistoryCase {
+    cfg: Cfg,
+    kind: u8,
+}
+
+const HISTORY_KINDS: u8 = 6;
+
+struct Sent {
+    parsed: Parsed,
+    changed: Vec<&'static str>,
+    raw: String,
+}
+
+fn send(
+    env: &Env,
+    fx: &mut Fixture,
+    ty: &str,
+    params: Option<J>,
+    auth: Option<&str>,
+) -> Result<Sent, String> {
+    let id = env.fresh_id();
+    let mut obj = serde_json::Map::new();
+    obj.insert("id".into(), json!(id));
+    obj.insert("type".into(), json!(ty));
+    if let Some(p) = params {
+        obj.insert("params".into(), p);
+    }
+    if let Some(a) = auth {
+        obj.insert("auth".into(), json!(a));
+    }
+    let line = J::Object(obj).to_string();
+    let (before, reply, after) = one_request(env, fx, line.as_bytes())?;
+    let changed = before.diff(&after);
+    match reply {
+        Reply::Line(raw) => {
+            let parsed = parse_reply(&raw).map_err(|e| format!("(6) {e}: {}", cut(&raw, 200)))?;
+            if parsed.id != Some(id) {
+                return Err(format!("(6) reply id {:?} does not answer request id {id}", parsed.id));
+            }
+            Ok(Sent { parsed, changed, raw })
+        }
+        Reply::Closed => Err(format!("(6) no reply to {ty:?}: connection closed; panics {:?}", take_panics())),
+        Reply::Timeout => Err("__timeout".into()),
+    }
+}
+
+fn check_history(env: &Env, case: &HistoryCase, probe: &mut Probe) -> Result<(), String> {
+    let cfg = case.cfg;
+    let kind = case.kind % HISTORY_KINDS;
+    probe.label(format!("history={kind}"));
+    let mut fx = match env.take(cfg, true) {
+        Ok(fx) => fx,
+        Err(e) => {
+            env.infra(format!("fixture: {e}"));
+            return Ok(());
+        }
+    };
+    // administrator of this configuration
+    let admin: Option<&str> = if cfg.token_set { Some(ADMIN_TOKEN) } else { None };
+    let io_write = || Some(json!({"address": "%IX0.3", "value": "true"}));
+    let t = env.tpl.tokens.clone();
+    let res = (|| -> Result<(), String> {
+        let must_serve = |s: &Sent, what: &str| -> Result<(), String> {
+            if s.parsed.class.passed_role_gate() {
+                Ok(())
+            } else {
+                Err(format!("history {kind} [{}]: {what} should be served, got {}", cfg.key(), cut(&s.raw, 200)))
+            }
+        };
+        let must_refuse = |s: &Sent, what: &str| -> Result<(), String> {
+            if s.parsed.ok || s.parsed.has_result || !s.changed.is_empty() || s.parsed.class.passed_role_gate() {
+                Err(format!(
+                    "history {kind} [{}]: {what} must be refused and change nothing, got {} changed {:?}",
+                    cfg.key(),
+                    cut(&s.raw, 200),
+                    s.changed
+                ))
+            } else {
+                Ok(())
+            }
+        };
+        match kind {
+            0 => {
+                // rotate the auth token: the old one is dead, the new one is admin
+                let s = send(env, &mut fx, "config.set", Some(json!({"control.auth_token": "rot-8841"})), admin)?;
+                must_serve(&s, "config.set by the administrator")?;
+                if !s.parsed.ok {
+                    return Ok(());
+                }
+                let s = send(env, &mut fx, "io.write", io_write(), Some(ADMIN_TOKEN))?;
+                must_refuse(&s, "(1) io.write with the replaced auth token")?;
+                let s = send(env, &mut fx, "status", None, None)?;
+                must_refuse(&s, "(1) status without credential after a token was configured")?;
+                let s = send(env, &mut fx, "io.write", io_write(), Some("rot-8841"))?;
+                must_serve(&s, "io.write with the new auth token")?;
+                let s = send(env, &mut fx, "io.write", io_write(), Some(&t.viewer))?;
+                must_refuse(&s, "(2) io.write with the viewer token after token rotation")?;
+            }
+            1 => {
+                // revoke through the endpoint
+                let s = send(env, &mut fx, "pair.revoke", Some(json!({"id": env.tpl.tokens.id_engineer})), admin)?;
+                must_serve(&s, "pair.revoke by the administrator")?;
+                if cfg.token_set {
+                    let s = send(env, &mut fx, "io.write", io_write(), Some(&t.engineer))?;
+                    must_refuse(&s, "(1) io.write with a pairing token revoked through the endpoint")?;
+                }
+                let s = send(env, &mut fx, "io.write", io_write(), Some(&t.viewer))?;
+                must_refuse(&s, "(2) io.write with the viewer token")?;
+            }
+            2 => {
+                // pair a new viewer through the endpoint
+                let s = send(env, &mut fx, "pair.start", None, admin)?;
+                must_serve(&s, "pair.start by the administrator")?;
+                let code = serde_json::from_str::<J>(&s.raw)
+                    .ok()
+                    .and_then(|v| v["result"]["code"].as_str().map(str::to_string))
+                    .unwrap_or_default();
+                let s = send(env, &mut fx, "pair.claim", Some(json!({"code": code, "role": "viewer"})), Some(&t.viewer))?;
+                must_refuse(&s, "(2) pair.claim with the viewer token")?;
+                let s = send(env, &mut fx, "pair.claim", Some(json!({"code": code, "role": "viewer"})), Some(&t.operator))?;
+                must_serve(&s, "pair.claim with the operator token")?;
+                let minted = serde_json::from_str::<J>(&s.raw)
+                    .ok()
+                    .and_then(|v| v["result"]["token"].as_str().map(str::to_string));
+                if let Some(tok) = minted {
+                    let s = send(env, &mut fx, "status", None, Some(&tok))?;
+                    must_serve(&s, "status with the freshly paired viewer token")?;
+                    let s = send(env, &mut fx, "io.write", io_write(), Some(&tok))?;
+                    must_refuse(&s, "(2) io.write with the freshly paired viewer token")?;
+                    let s = send(env, &mut fx, "config.set", Some(json!({"log.level": "trace"})), Some(&tok))?;
+                    must_refuse(&s, "(2) config.set with the freshly paired viewer token")?;
+                }
+            }
+            3 => {
+                // switch debugging off at run time
+                if !cfg.debug_enabled {
+                    return Ok(());
+                }
+                let s = send(env, &mut fx, "config.set", Some(json!({"control.debug_enabled": false})), admin)?;
+                must_serve(&s, "config.set by the administrator")?;
+                for ty in ["pause", "step_in", "breakpoints.clear_all", "debug.state"] {
+                    let s = send(env, &mut fx, ty, None, admin)?;
+                    if s.parsed.ok || s.parsed.has_result || !s.changed.is_empty() {
+                        return Err(format!(
+                            "history {kind} [{}]: (5) {ty} after debugging was switched off must be refused, got {} changed {:?}",
+                            cfg.key(),
+                            cut(&s.raw, 200),
+                            s.changed
+                        ));
+                    }
+                }
+            }
+            4 => {
+                // configure a token at run time: anonymous access ends
+                if cfg.token_set {
+                    return Ok(());
+                }
+                let s = send(env, &mut fx, "config.set", Some(json!({"control.auth_token": "late-5521"})), None)?;
+                must_serve(&s, "config.set on an endpoint without token")?;
+                let s = send(env, &mut fx, "io.write", io_write(), None)?;
+                must_refuse(&s, "(1) io.write without credential after a token was configured")?;
+                let s = send(env, &mut fx, "config.get", None, Some("wrong"))?;
+                must_refuse(&s, "(1) config.get with a wrong credential after a token was configured")?;
+            }
+            _ => {
+                // revoke everything
+                let s = send(env, &mut fx, "pair.revoke", Some(json!({"id": "all"})), admin)?;
+                must_serve(&s, "pair.revoke all by the administrator")?;
+                if cfg.token_set {
+                    for tok in [&t.viewer, &t.operator, &t.engineer] {
+                        let s = send(env, &mut fx, "status", None, Some(tok))?;
+                        must_refuse(&s, "(1) status with a pairing token after 'revoke all'")?;
+                    }
+                }
+            }
+        }
+        Ok(())
+    })();
+    env.put_back(fx, true);
+    match res {
+        Err(e) if e == "__timeout" => Ok(()),
+        Err(e) => Err(e),
+        Ok(()) => {
+            probe.nontrivial(format!("history|{}|{kind}", cfg.key()).as_bytes());
+            Ok(())
+        }
+    }
+}
+
 fn run(ctx: &mut RunCtx) {
-    ctx.inconclusive("check not built yet");
+    install_panic_recorder();
+    let tier = ctx.tier;
+    let repo = crate::engine::repo_root();
+    let ex = match domain::extract(&repo) {
+        Ok(ex) => ex,
+        Err(e) => {
+            ctx.inconclusive(format!("request types cannot be extracted from the sources: {e}"));
+            return;
+        }
+    };
+    // scratch directories of earlier runs that were killed (watchdog) are removed
+    if ctx.worker == 0 {
+        if let Ok(rd) = std::fs::read_dir("/tmp") {
+            for e in rd.flatten() {
+                let name = e.file_name().to_string_lossy().to_string();
+                if let Some(rest) = name.strip_prefix("tpv-c18-") {
+                    let pid = rest.split('-').next().and_then(|p| p.parse::<i32>().ok());
+                    if let Some(pid) = pid {
+                        if !std::path::Path::new(&format!("/proc/{pid}")).exists() {
+                            let _ = std::fs::remove_dir_all(e.path());
+                        }
+                    }
+                }
+            }
+        }
+    }
+    let base = std::path::PathBuf::from(format!(
+        "/tmp/tpv-c18-{}-w{}",
+        std::process::id(),
+        ctx.worker
+    ));
+    let tpl = match Template::build(base) {
+        Ok(t) => t,
+        Err(e) => {
+            ctx.inconclusive(format!("pairing template: {e}"));
+            return;
+        }
+    };
+    // debug-class = the harness's list + whatever the debugger/variable handler files dispatch
+    let mut debug_class: BTreeSet<String> = domain::DEBUG_CLASS.iter().map(|s| s.to_string()).collect();
+    for (ty, file) in &ex.dispatch {
+        if file == "debug" || file == "variables" {
+            debug_class.insert(ty.clone());
+        }
+    }
+    let types: Vec<String> = ex.all().into_iter().collect();
+    let unclassified: Vec<String> = types
+        .iter()
+        .filter(|t| !domain::is_mutating(t) && !domain::is_read_only(t))
+        .cloned()
+        .collect();
+    let table_only: Vec<String> = types.iter().filter(|t| !ex.dispatch.contains_key(*t)).cloned().collect();
+    let not_in_table: Vec<String> = ex
+        .dispatch
+        .keys()
+        .filter(|t| !ex.required_table.contains(*t))
+        .cloned()
+        .collect();
+    ctx.note(format!(
+        "request types in the sources: {} dispatched, {} in the role table, {} in the debug gate; not classified by the harness: {:?}; in a table but not dispatched: {:?}; dispatched but absent from the role table (default = viewer): {:?}",
+        ex.dispatch.len(),
+        ex.required_table.len(),
+        ex.debug_gate.len(),
+        unclassified,
+        table_only,
+        not_in_table
+    ));
+    let env = Env {
+        tpl,
+        ex,
+        debug_class,
+        pool: RefCell::new(BTreeMap::new()),
+        seq: RefCell::new(0),
+        infra: RefCell::new(Vec::new()),
+        notes: RefCell::new(BTreeSet::new()),
+        next_id: RefCell::new(1000),
+        rebuilds: RefCell::new(0),
+        graveyard: RefCell::new(Vec::new()),
+    };
+
+    // ---- the grid: every type found in the sources x valid params x config x credential
+    if ctx.only_replay.is_none() {
+        let mut groups: Vec<GroupCase> = Vec::new();
+        for cfg in domain::all_cfgs() {
+            for ty in &types {
+                let classified = domain::is_mutating(ty) || domain::is_read_only(ty);
+                let variants = if classified {
+                    domain::valid_params(ty)
+                } else {
+                    domain::params_pool()
+                };
+                for p in variants {
+                    groups.push(GroupCase {
+                        cfg,
+                        ty: ty.clone(),
+                        schema_of: ty.clone(),
+                        shape: "valid".into(),
+                        params: p,
+                        extra: None,
+                        creds: domain::GRID_CREDS.to_vec(),
+                    });
+                }
+            }
+        }
+        // garbled spellings of every mutating type, effective parameters
+        for cfg in domain::all_cfgs() {
+            if !cfg.debug_enabled || cfg.mode_debug {
+                continue;
+            }
+            for ty in domain::MUTATING {
+                for how in [0usize, 2, 3] {
+                    groups.push(GroupCase {
+                        cfg,
+                        ty: domain::garble_type(ty, how),
+                        schema_of: ty.to_string(),
+                        shape: "valid".into(),
+                        params: domain::valid_params(ty)[0].clone(),
+                        extra: None,
+                        creds: domain::GRID_CREDS.to_vec(),
+                    });
+                }
+            }
+        }
+        ctx.note(format!("grid: {} request templates x {} credentials", groups.len(), domain::GRID_CREDS.len()));
+        // robustness sweep: every member of every valid parameter object replaced by every
+        // odd value / removed, sent by an administrator and by a viewer
+        let n_grid = groups.len();
+        for (i, ty) in types.iter().enumerate() {
+            let cfg = Cfg {
+                token_set: true,
+                debug_enabled: true,
+                mode_debug: i % 2 == 1,
+                paused: false,
+            };
+            for p in domain::odd_param_variants(ty) {
+                groups.push(GroupCase {
+                    cfg,
+                    ty: ty.clone(),
+                    schema_of: ty.clone(),
+                    shape: "wrong_typed".into(),
+                    params: Some(p),
+                    extra: None,
+                    creds: vec![Cred::Admin, Cred::Viewer],
+                });
+            }
+        }
+        ctx.note(format!("robustness sweep: {} request templates x 2 credentials", groups.len() - n_grid));
+        for (i, g) in groups.iter().enumerate() {
+            if i % ctx.nworkers.max(1) != ctx.worker {
+                continue;
+            }
+            let j = serde_json::to_value(g).unwrap();
+            ctx.enumerated("group", &j, |p| {
+                p.label("phase=grid");
+                check_group(&env, g, p)
+            });
+        }
+    }
+
+    // ---- generated request templates
+    let types_for_gen = types.clone();
+    let strat = tape_strategy(28).prop_map(move |t| {
+        let mut r = Reader::new(&t);
+        domain::group_from_tape(&mut r, &types_for_gen)
+    });
+    ctx.search("group", strat, tier.pick(2_000, 60_000), |c: &GroupCase, p| {
+        p.label("phase=generated");
+        check_group(&env, c, p)
+    });
+
+    // ---- malformed lines
+    let types_for_lines = types.clone();
+    let strat = tape_strategy(20).prop_map(move |t| {
+        let mut r = Reader::new(&t);
+        domain::line_from_tape(&mut r, &types_for_lines)
+    });
+    ctx.search("line", strat, tier.pick(3_000, 100_000), |c: &LineCase, p| check_line(&env, c, p));
+
+    // ---- short histories (who is authorised changes at run time)
+    let cfgs = domain::all_cfgs();
+    let strat = (0..cfgs.len(), 0..HISTORY_KINDS).prop_map(move |(c, kind)| HistoryCase { cfg: cfgs[c], kind });
+    ctx.search("history", strat, tier.pick(96, 960), |c: &HistoryCase, p| check_history(&env, c, p));
+
+    env.shutdown();
+    ctx.note(format!("fixtures built by this worker: {}", env.rebuilds.borrow()));
+    for n in env.notes.borrow().iter() {
+        ctx.note(n.clone());
+    }
+    for s in env.infra.borrow().iter() {
+        ctx.inconclusive(s.clone());
+    }
 }
